@@ -4,7 +4,7 @@
    src/pydrobert/speech/*.py on every run. *)
 From Coq Require Import String.
 From Coq Require Import ZArith List Bool.
-From Verif Require Import C08.Model C08.ProofsMachine C08.ProofsTree C08.ProofsBuild C08.ProofsRegistry.
+From Verif Require Import C08.Model C08.ProofsMachine C08.ProofsTree C08.ProofsBuild C08.ProofsNested C08.ProofsRegistry.
 From Verif Require Import gen.C08_Registry.
 Import ListNotations.
 Local Open Scope string_scope.
@@ -181,6 +181,7 @@ Print Assumptions from_arg_no_alias_no_name.
 Theorem from_alias_unknown_is_value_error :
   forall r f fam ft s kw,
     subtree (r_tree r) fam = Some ft ->
+    ~ In "cls" (keys kw) ->
     (forall n, In n (visit_order ft) -> ~ In s (t_al n)) ->
     from_alias r f fam (VStr s) kw = Err ValueError.
 Proof. exact from_alias_unknown_l. Qed.
@@ -189,7 +190,38 @@ Print Assumptions from_alias_unknown_is_value_error.
 Theorem from_alias_builds_resolved_class :
   forall r f fam ft s kw c,
     subtree (r_tree r) fam = Some ft -> tree_from_alias ft s = Some c ->
+    ~ In "cls" (keys kw) ->
     from_alias r f fam (VStr s) kw = construct r f c kw
     /\ is_subclass (r_tree r) c fam = true.
 Proof. exact from_alias_known_l. Qed.
 Print Assumptions from_alias_builds_resolved_class.
+
+(* the one keyword a mapping cannot pass on: it collides with from_alias's own parameter *)
+Theorem from_alias_cls_keyword_rejected :
+  forall r f fam a kw, In "cls" (keys kw) -> from_alias r f fam a kw = Err TypeError.
+Proof. exact from_alias_cls_keyword_l. Qed.
+Print Assumptions from_alias_cls_keyword_rejected.
+
+(* ---- nested configurations (any registry) ---- *)
+
+(* more fuel never changes a definite answer of the model *)
+Theorem from_arg_fuel_monotone :
+  forall r f f', f <= f' -> forall fam x v, from_arg r f fam x = Ok v -> from_arg r f' fam x = Ok v.
+Proof. exact from_arg_mono. Qed.
+Print Assumptions from_arg_fuel_monotone.
+
+(* A nested configuration tree (scale inside bank inside computer, with window -
+   any depth, any registry), well-formed in the sense of [wf_cfg] (ProofsNested.v:
+   each alias resolves to its class from the family the enclosing constructor
+   names; keyword names distinct, none of them 'alias'/'cls', nor 'name' when the
+   alias is given under 'name'; nested documents only under parameters the
+   constructor resolves).  If assembling the objects explicitly, innermost first,
+   succeeds, then alias_factory_subclass_from_arg on the JSON document - alias
+   under 'alias' or 'name', at any position, or as a bare string - builds exactly
+   the same object. *)
+Theorem nested_build_eq :
+  forall r f g fam v,
+    wf_cfg r fam g -> explicit r f g = Ok v ->
+    from_arg r (cfg_depth g + f) fam (to_json g) = Ok v.
+Proof. exact nested_build_eq_l. Qed.
+Print Assumptions nested_build_eq.
